@@ -131,7 +131,7 @@ func init() {
 		Level: "exploration",
 		Cases: c08Cases,
 		Run:   runC08,
-		Rule: "exhaustive part: keys = fixed bucket bytes + 3 symbols over {0x10,0x20} (8 keys quick, 6 keys thorough: every shared-prefix shape), ALL valid sequences up to length L (quick 5, thorough 6) over {Put k (absent), Update k (present), Remove k (present), Flush}, each executed twice (as generated; with a Flush after every operation) against index.Index with the in-memory primary; after every operation every key is looked up and, where the bucket is flushed, the stored prefixes are read back through Index.NewIterator and checked (sorted, pairwise prefix-free, prefix of own key, other keys' entries untouched). One case = all extensions of one valid length-2 prefix. Random part: sequences of 50-300 operations over alphabets of 2-4 symbols, key length 4-12 after the bucket bytes, bits in {8,12,16,24}. " +
+		Rule: "exhaustive part: keys = fixed bucket bytes + 3 symbols over {0x10,0x20} (8 keys quick, 6 keys thorough: every shared-prefix shape), ALL valid sequences up to length L (quick 5, thorough 6) over {Put k (absent), Update k (present), Remove k (present), Flush}, each executed twice (as generated; with a Flush after every operation) against index.Index with the in-memory primary; after every operation every key is looked up and, where the bucket is flushed, the stored prefixes are read back through Index.NewIterator and checked (sorted, pairwise prefix-free, prefix of own key, other keys' entries untouched); the as-generated run ends with flush, close, removal of the saved bucket table and a rescanning reopen, after which every key is looked up again. One case = all extensions of one valid length-2 prefix. Random part: sequences of 50-300 operations over alphabets of 2-4 symbols, key length 4-12 after the bucket bytes, bits in {8,12,16,24}. " +
 			"non-trivial iff the case observed a stored prefix being lengthened (the previous-key branch), an insert between two entries, an update and a removal; distinct = hash of the set of final record lists seen",
 		Assumptions: []string{
 			"Update and Remove are only issued for present keys and Put only for absent keys (the store checks the full key first)",
@@ -269,8 +269,8 @@ func (e *idxEnv) lookups(res *core.CaseResult, seqs string) {
 }
 
 type c08Obs struct {
-	lengthened, between, updates, removes int64
-	finals                                map[string]bool
+	lengthened, between, updates, removes, rescans int64
+	finals                                         map[string]bool
 }
 
 // runIdxSeq executes one sequence; flushEvery inserts a flush after each op.
@@ -382,6 +382,29 @@ func runIdxSeq(res *core.CaseResult, keys [][]byte, bits uint8, fileSize uint32,
 	})
 	if p != nil {
 		res.Violate("panic", "c08-panic", 0, seqs, "index panicked: %v", p)
+		return
+	}
+	if !flushEvery {
+		// the same lookups must hold for an index rebuilt from its log alone: flush, close, drop
+		// the saved bucket table, reopen (rescan)
+		p = core.Protect(func() {
+			if _, err := e.idx.Flush(); err != nil {
+				return
+			}
+			e.idx.Close()
+			os.Remove(filepath.Join(e.dir, "t.index.buckets"))
+			idx, err := index.Open(context.Background(), filepath.Join(e.dir, "t.index"), e.prim, bits, fileSize, 0, 0, filecache.New(8))
+			if err != nil {
+				res.Violate("reopen-error", "c08-reopen-error", 0, seqs, "reopening the index by rescan failed: %v", err)
+				return
+			}
+			e.idx = idx
+			e.lookups(res, seqs+" [after rescan]")
+			obs.rescans++
+		})
+		if p != nil {
+			res.Violate("panic", "c08-panic-rescan", 0, seqs, "index panicked on rescan: %v", p)
+		}
 	}
 }
 
@@ -460,6 +483,7 @@ func runC08(c run.Ctx) *core.CaseResult {
 	res.Add("obs_insert_between", obs.between)
 	res.Add("obs_updates", obs.updates)
 	res.Add("obs_removes", obs.removes)
+	res.Add("rescan_reopens_probed", obs.rescans)
 	res.Add("distinct_final_lists_in_case_sum", int64(len(obs.finals)))
 	var fl []string
 	for k := range obs.finals {
